@@ -28,6 +28,8 @@ import (
 
 func ip(i int) *int { return &i }
 
+func rand64(seed int64) *rand.Rand { return rand.New(rand.NewSource(seed)) }
+
 // ------------------------------------------------------------------------------------------------
 // modes
 // ------------------------------------------------------------------------------------------------
